@@ -840,16 +840,26 @@ def run_shard(ctx, shard, plan, tier, t_end):
     try:
         fresh()
         # determinism obligation: the first executions are run on a first instance, then again on a second one
+        # (the same sequence of executions, without the confirmation replays of the main loop in between)
         j0 = plan['jobs'][0]
-        first = {}
         n0 = st['n']
-        for pi, pos in enumerate(j0['positions'][:DET_N]):
-            if pos is not None and not position_exists(st['w'], FAMS[j0['fam']], case_of(j0, pos)):
-                continue
-            first[pi] = one(case_of(j0, pos))
-            res['replays'] += 1
-        fresh()
-        st['n'] = n0
+        passes = []
+        for rnd in (0, 1):
+            if rnd:
+                fresh()
+            st['n'] = n0
+            got = {}
+            for pi, pos in enumerate(j0['positions'][:DET_N]):
+                if pos is not None and not position_exists(st['w'], FAMS[j0['fam']], case_of(j0, pos)):
+                    continue
+                got[pi] = one(case_of(j0, pos))
+                res['replays'] += 1
+            passes.append(got)
+        for pi in passes[0]:
+            a, b = passes[0][pi], passes[1].get(pi)
+            if b is None or a['transcript'] != b['transcript'] or a['outcome'] != b['outcome']:
+                raise HarnessError('nondeterminism: %r gave different transcripts on two instances:\n%s\n---\n%s' % (
+                    case_of(j0, j0['positions'][pi]), a['transcript'][:800], (b or {}).get('transcript', 'not run')[:800]))
         for ji, job in enumerate(plan['jobs']):
             F = FAMS[job['fam']]
             injk = job['inj']['kind'] if job['inj'] else 'none'
@@ -865,11 +875,6 @@ def run_shard(ctx, shard, plan, tier, t_end):
                     res['na_positions'] += 1
                     continue
                 r = one(case)
-                if ji == 0 and pi in first:
-                    a = first[pi]
-                    if a['transcript'] != r['transcript'] or a['outcome'] != r['outcome']:
-                        raise HarnessError('nondeterminism: %r gave different transcripts on two instances:\n%s\n---\n%s' % (
-                            case, a['transcript'][:800], r['transcript'][:800]))
                 if r['cls'] == 'n/a':
                     res['na_positions'] += 1
                     continue
